@@ -54,6 +54,8 @@ structure St where
   fs : FS := {}
   async : Bool := false
   closed : Bool := false
+  /-- the file-system operations the model issued for the last op (used by the C11/C12 checkers) -/
+  lastOps : List FsOp := []
   -- monitor
   spec : RecState := {}
   left : Bool := false
@@ -198,7 +200,7 @@ def runEv (cfg : Cfg) (st : St) (ev : Ev) (impl : String) : LineOut St :=
     let r := step Order.id s ev
     let fs := st.fs.applyAll r.2
     let st1 := specEv st ev
-    let st2 := { st1 with snap := some r.1, fs := fs }
+    let st2 := { st1 with snap := some r.1, fs := fs, lastOps := r.2 }
     if st.async then { state := st2, model := some "ok" }
     else { state := st2, model := some (showState r.1 fs), monitor := judgeMem cfg st2 impl }
 
@@ -221,7 +223,7 @@ def step (cfg : Cfg) (st : St) (op : List String) (impl : String) : LineOut St :
         let r := Snap.openOn rj mc fs0.main
         let fs := fs0.applyAll r.2
         -- the specification starts from what the implementation itself recovered from the given file
-        let st' : St := { snap := some r.1, fs := fs, async := async, closed := false, spec := (implRec impl).getD {},
+        let st' : St := { snap := some r.1, fs := fs, async := async, closed := false, lastOps := r.2, spec := (implRec impl).getD {},
                           left := false, rjWriter := rj, badName := false,
                           torn := match file with
                             | some f => f.getLast? != none && f.getLast? != some '\n'
@@ -282,7 +284,7 @@ def step (cfg : Cfg) (st : St) (op : List String) (impl : String) : LineOut St :
       let st1 := specEv st (.clockTick clk)
       let mstate := showState r.1 fs
       let mfile := fs.main.getD []
-      let st2 := { st1 with snap := some r.1, fs := fs, closed := true }
+      let st2 := { st1 with snap := some r.1, fs := fs, closed := true, lastOps := r.2 }
       let mon := judgeMem cfg { st2 with async := false } impl
       match impl.splitOn " file=" with
       | [istate, ifile] =>
@@ -307,7 +309,7 @@ def step (cfg : Cfg) (st : St) (op : List String) (impl : String) : LineOut St :
       -- the next life: the specification keeps its own state when it has just been confirmed (no leave, same
       -- flag); otherwise it starts from what the implementation says it recovered
       let spec' := if !st.left && rj == st.rjWriter && mon.isNone then st.spec else (implRec impl).getD {}
-      let st' : St := { st with snap := some r.1, fs := fs, async := false, closed := false, spec := spec',
+      let st' : St := { st with snap := some r.1, fs := fs, async := false, closed := false, lastOps := r.2, spec := spec',
                                 left := false, rjWriter := rj }
       { state := st', model := some (showState r.1 fs), monitor := mon }
     | _, _, _ => bad
